@@ -487,14 +487,26 @@ func c13RunCovered(r *Run, l *Local, s c13Shape, d c13Case) {
 			coverers = append(coverers, s.scheme+"://*."+parent+":*", s.scheme+"://*."+parent+s.port)
 		}
 	}
+	// ... and after `*`, which covers everything (lesson of seeded change C13-r: elements after `*` no longer parsed)
+	prefixes := [][]string{{"*"}, {s.String(), "*"}}
 	for _, cov := range coverers {
+		prefixes = append(prefixes, []string{cov})
+	}
+	for _, pre := range prefixes {
+		cov := pre[len(pre)-1]
 		if cov == d.Pattern {
 			continue
 		}
-		if _, err := origins.ParsePattern(cov); err != nil {
-			continue // the coverer itself must be acceptable (e.g. not for over-long parents)
+		ok := true
+		for _, p := range pre {
+			if _, err := origins.ParsePattern(p); err != nil && p != "*" {
+				ok = false // the prefix itself must be acceptable (e.g. not for over-long parents)
+			}
 		}
-		list := []string{cov, d.Pattern}
+		if !ok {
+			continue
+		}
+		list := append(append([]string{}, pre...), d.Pattern)
 		l.curA = list
 		l.evals++
 		l.counters["defect_listed_after_a_covering_pattern"]++
